@@ -42,7 +42,7 @@ func run(r *vk.Run) {
 		sizes = append(sizes, n)
 	}
 	sizes = append(sizes, 999, 1000, 1001)
-	reps := r.Pick(2, 30)
+	reps := r.Pick(2, 300)
 	szRng := r.Rand("extra-sizes")
 	idx := 0
 	for rep := 0; rep < reps; rep++ {
@@ -76,6 +76,7 @@ func run(r *vk.Run) {
 	r.Require("walks-exact-multiple", pick(400, 5000))
 	r.Require("walks-capped-at-1000", pick(20, 300))
 	r.Require("walks-default-size-multi-page", pick(40, 600))
+	r.Require("walks-mixed-page-sizes", pick(1000, 15000))
 	r.Require("walks-wrapped", pick(300, 4000))
 	r.Require("neg-probes", pick(3000, 40000))
 	r.Require("tok-probes/malformed", pick(2000, 30000))
@@ -259,24 +260,36 @@ func runCase(r *vk.Run, t *target, n int, idx int) {
 		case 1:
 			mc = maskKeyTag
 		}
-		clean, w := s.checkedWalk(r, s.in.direct, size, mc, "")
+		clean, w := s.checkedWalk(r, s.in.direct, []int32{size}, mc, "")
 		if size == 1 && len(w.pages) > 1 {
 			midToken = w.pages[rng.Intn(len(w.pages)-1)].next
 		}
 		if clean && rng.Chance(1, 6) {
 			key := "C15/" + t.rpc + "/panic/wrapped"
 			if r.Guard(key, map[string]any{"scenario": s.replay, "page_size": size, "mask": mc.name}) {
-				s.checkedWalk(r, s.in.wrapped, size, mc, "/wrapped")
+				s.checkedWalk(r, s.in.wrapped, []int32{size}, mc, "/wrapped")
 				r.Unguard()
 			}
 		}
+	}
+	// the page size may change from request to request within one chain
+	for k := 0; k < 2; k++ {
+		pool := []int32{1, 2, 3, 7, 50, 0, 1000, 5000, int32(rng.Range(1, n+2))}
+		if n > 200 {
+			pool = []int32{50, 0, 333, 1000, 5000, 400, int32(rng.Range(20, 1100))}
+		}
+		mix := make([]int32, rng.Range(2, 4))
+		for i := range mix {
+			mix[i] = pool[rng.Intn(len(pool))]
+		}
+		s.checkedWalk(r, s.in.direct, mix, maskNone, "")
 	}
 	if checkMaskWithoutKey && n > 0 {
 		for _, size := range []int32{int32(max(1, n/3)), 0} {
 			if n > 200 && size != 0 {
 				size = 400
 			}
-			s.checkedWalk(r, s.in.direct, size, maskTag, "")
+			s.checkedWalk(r, s.in.direct, []int32{size}, maskTag, "")
 		}
 	}
 	s.negativeSizes(r, rng, midToken)
@@ -292,7 +305,7 @@ type walk struct {
 	endless  string // non-empty: why the chain is considered endless
 }
 
-func (s *scenario) walk(call callFn, size int32, mask []string, startToken string, maxPages int) walk {
+func (s *scenario) walk(call callFn, sizes []int32, mask []string, startToken string, maxPages int) walk {
 	var w walk
 	token := startToken
 	seen := map[string]bool{}
@@ -302,7 +315,7 @@ func (s *scenario) walk(call callFn, size int32, mask []string, startToken strin
 			return w
 		}
 		req := s.in.newReq()
-		fillRequest(req, size, token, mask)
+		fillRequest(req, sizes[len(w.pages)%len(sizes)], token, mask)
 		var p page
 		var err error
 		if panicked, what := vk.Recover(func() {
@@ -341,17 +354,21 @@ func (w walk) lens() []int {
 }
 
 // checkedWalk walks the whole listing with a valid page size and judges it. Returns whether it was clean.
-func (s *scenario) checkedWalk(r *vk.Run, call callFn, size int32, mc maskClass, via string) (bool, walk) {
+//
+// sizes holds the page size of the first, second, ... request (cycled); a walk with one size is the usual case.
+func (s *scenario) checkedWalk(r *vk.Run, call callFn, sizes []int32, mc maskClass, via string) (bool, walk) {
+	size := sizes[0]
+	mixed := len(sizes) > 1
 	t, n := s.t, s.n
 	suffix := via
 	if mc.name == "tag-only" {
 		suffix = "/mask-without-key" + via
 	}
 	mask := mc.paths(t)
-	w := s.walk(call, size, mask, "", n+2)
+	w := s.walk(call, sizes, mask, "", n+2)
 	r.Eval(1)
 	eff := effective(size)
-	desc := fmt.Sprintf("walk|%s|n=%d|size=%d|mask=%s|keys=%s|%s", t.rpc, n, size, mc.name, s.setHash, via)
+	desc := fmt.Sprintf("walk|%s|n=%d|size=%v|mask=%s|keys=%s|%s", t.rpc, n, sizes, mc.name, s.setHash, via)
 	if n > 0 {
 		r.Distinct(desc)
 	} else {
@@ -370,17 +387,20 @@ func (s *scenario) checkedWalk(r *vk.Run, call callFn, size int32, mc maskClass,
 			r.Count("walks-default-size-multi-page", 1)
 		}
 	}
-	if n > 0 && n%eff == 0 {
+	if mixed {
+		r.Count("walks-mixed-page-sizes", 1)
+	}
+	if !mixed && n > 0 && n%eff == 0 {
 		r.Count("walks-exact-multiple", 1)
 	}
-	if size > 1000 && n > 1000 {
+	if !mixed && size > 1000 && n > 1000 {
 		r.Count("walks-capped-at-1000", 1)
 	}
 	if k := len(w.pages); k > 1 && len(w.pages[k-1].items) == 0 {
 		r.Count("walks-trailing-empty-page", 1)
 	}
 	if r.WantSample("walk/" + t.rpc) {
-		r.Sample("walk/"+t.rpc, map[string]any{"rpc": t.rpc, "items": n, "page_size": size, "mask": mc.name, "page_lengths": w.lens(), "via": via})
+		r.Sample("walk/"+t.rpc, map[string]any{"rpc": t.rpc, "items": n, "page_sizes": sizes, "mask": mc.name, "page_lengths": w.lens(), "via": via})
 	}
 
 	clean := true
@@ -394,9 +414,9 @@ func (s *scenario) checkedWalk(r *vk.Run, call callFn, size int32, mc maskClass,
 			}
 			first = append(first, it.id)
 		}
-		detail := fmt.Sprintf("%s%s with %d items, page_size=%d (effective %d), read mask %v: %s\npage lengths: %v\nfirst keys in listing order: %q",
-			t.rpc, via, n, size, eff, mask, what, w.lens(), first)
-		r.Violation("C15/"+t.rpc+"/"+clause+suffix, detail, map[string]any{"scenario": s.replay, "page_size": size, "mask": mask, "via": via})
+		detail := fmt.Sprintf("%s%s with %d items, page_size=%v (one value per request, cycled; 0 means 50, values above 1000 mean 1000), read mask %v: %s\npage lengths: %v\nfirst keys in listing order: %q",
+			t.rpc, via, n, sizes, mask, what, w.lens(), first)
+		r.Violation("C15/"+t.rpc+"/"+clause+suffix, detail, map[string]any{"scenario": s.replay, "page_sizes": sizes, "mask": mask, "via": via})
 	}
 
 	if w.panicked != "" {
@@ -408,8 +428,8 @@ func (s *scenario) checkedWalk(r *vk.Run, call callFn, size int32, mc maskClass,
 		return false, w
 	}
 	for i, p := range w.pages {
-		if len(p.items) > eff {
-			report("page-too-long", fmt.Sprintf("page %d has %d items", i+1, len(p.items)))
+		if e := effective(sizes[i%len(sizes)]); len(p.items) > e {
+			report("page-too-long", fmt.Sprintf("page %d has %d items, at most %d were requested", i+1, len(p.items), e))
 			break
 		}
 	}
